@@ -9,6 +9,10 @@ import (
 type builder struct {
 	t    Topo
 	next uint16
+	// localIDs: number the interfaces per AS (1, 2, 3, ... in each AS), as operators do: different ASes then use the
+	// same interface numbers, and both ends of a link often carry the same number. Otherwise ids are globally unique.
+	localIDs bool
+	perAS    map[int]uint16
 }
 
 // KeySalt varies the master keys of all ASes built afterwards (different key sets for the same topology).
@@ -26,6 +30,15 @@ func (b *builder) link(a, c int, k LinkKind) {
 	ifA := b.next
 	b.next++
 	ifB := b.next
+	if b.localIDs {
+		if b.perAS == nil {
+			b.perAS = map[int]uint16{}
+		}
+		b.perAS[a]++
+		ifA = b.perAS[a]
+		b.perAS[c]++
+		ifB = b.perAS[c]
+	}
 	b.t.Links = append(b.t.Links, Link{A: a, B: c, IfA: ifA, IfB: ifB, Kind: k, MTU: uint16(1300 + 4*len(b.t.Links))})
 }
 
@@ -143,8 +156,12 @@ func Family(level int) []*Topo {
 			if bits > 2 || (level == 0 && mask != 0 && mask != 1<<len(cands)-1 && mask != 1) {
 				continue
 			}
-			for split := 0; split < 3; split++ {
-				b := &builder{}
+			for variant := 0; variant < 6; variant++ {
+				split := variant % 3
+				b := &builder{localIDs: variant >= 3}
+				if b.localIDs && level == 0 && split == 1 {
+					continue // quick: AS-local numbering with splits 0 and 2 only
+				}
 				bs.build(b)
 				for k, pc := range cands {
 					if mask>>k&1 == 1 {
@@ -153,6 +170,9 @@ func Family(level int) []*Topo {
 				}
 				t := b.t
 				t.Name = fmt.Sprintf("%s/peer=%b/split=%d", bs.name, mask, split)
+				if b.localIDs {
+					t.Name += "/local-ifids"
+				}
 				t.split(split)
 				out = append(out, &t)
 			}
